@@ -364,7 +364,8 @@ def bounds_cases(draw):
         ses["served_amps"] = 0.0
         for b in bounds:
             if b["id"] == ses["id"]:
-                b["ub"] = None
+                # the station is a finite-rate one now: no positive session minimum (see above)
+                b["ub"], b["lb"] = None, 0.0
     return spec
 
 
